@@ -1051,6 +1051,33 @@ fn gen_c05(ctx: &mut Ctx) {
             inj(ctx, &m);
         }
     }
+    // the heaviest data chunks there are: all bytes 0xFF at the highest offsets (the frame's bytes add up to 65536 or more)
+    for off in [0xFFFFu16, 0xFFFE, 0xF8F0, 0xFF00, 0x00FF, 0xFEFF, 0x0100] {
+        for len in [255usize, 254, 253] {
+            let m = format!("SD.{}.{}", off, hex_of_bytes(&vec![0xFFu8; len]));
+            wire_case(ctx, m.clone(), "SD-heavy");
+            inj(ctx, &m);
+        }
+    }
+    // data chunks whose content is itself the text of a frame line (valid, lower case, with CR LF, damaged), and chunk
+    // counts / addresses whose digits spell structural characters
+    for (k, (ia, it, id)) in [(0u16, 1u8, vec![]), (5, 2, vec![0xFFu8]), (3, 4, vec![0x13]), (16, 0, vec![1, 2, 3])].into_iter().enumerate() {
+        for nl in [false, true] {
+            let text = ref_encode(ia, it, &id, nl);
+            let lower: Vec<u8> = text.iter().map(|c| c.to_ascii_lowercase()).collect();
+            let mut damaged = text.clone();
+            damaged[3] ^= 1;
+            for inner in [text, lower, damaged] {
+                let m = format!("SD.{}.{}", k * 16, hex_of_bytes(&inner));
+                wire_case(ctx, m.clone(), "SD-frame-text");
+                inj(ctx, &m);
+            }
+        }
+    }
+    for m in ["SD.0.3A", "SD.0.3A3A", "SD.0.0D0A", "SD.14938.3A30", "DC.14906", "DC.3338", "HE.14906", "HE.3338", "RS.2573.PLD"] {
+        wire_case(ctx, m.to_string(), "structural-bytes");
+        inj(ctx, m);
+    }
     // a rejected line of each kind must not influence the messages handled after it
     for (k, bad) in [&b":01007F02FF7E"[..], &b":00007F02007F"[..], &b"garbage"[..], &b":0200000000FE"[..], &b":01007F02FF7E\r\n"[..]].iter().enumerate() {
         ctx.case(format!("DEC {}", hex_of_bytes(bad)), true, "rejected-line-then-more");
